@@ -141,6 +141,25 @@ class SimE(Simulator):
         ops.append(["end_stop"])
         return {"cfg": {"recovery": False, "runlog_every": 4, "wellformed": True}, "method": method, "ops": ops}
 
+    # -- profile: thresholds and waits with user Pause / Hold sequences between ticks (C03)
+    def _gen_holdpause(self, rng: random.Random, tier: str) -> dict:
+        feats = gen.pick_features(rng, always=["threshold", "wait", "base"], never=["pause", "hold", "alarm", "macro", "simulate"], p=0.3)
+        method = gen.gen_method(rng, feats, max_lines=rng.randint(3, 10), max_depth=1, time_scale=1.0)
+        if rng.random() < 0.5:
+            method = [["L000", "Base: s"], ["L001", "Mark: h1"], ["L002", f"{rng.choice([2.0, 3.0, 4.5])} Mark: h2"],
+                      ["L003", f"Wait: {rng.choice([0.5, 1.0])}s"], ["L004", "Mark: h3"]]
+        ops: list[list] = [["user", "Start"], ["tick", rng.choice([2, 4, 6]), 0.1]]
+        seqs = [["Pause", "Unpause"], ["Hold", "Unhold"], ["Pause", "Hold", "Unpause", "Unhold"], ["Hold", "Pause", "Unhold", "Unpause"],
+                ["Hold", "Pause", "Unpause", "Unhold"], ["Pause", "Hold", "Unhold", "Unpause"]]
+        for _ in range(rng.randint(1, 3)):
+            for c in rng.choice(seqs):
+                ops.append(["user", c])
+                ops.append(["tick", rng.choice([1, 3, 8, 20, 40]), 0.1])
+            ops.append(["tick", rng.choice([2, 6, 15]), 0.1])
+        ops.append(["settle", 300])
+        ops.append(["end_stop"])
+        return {"cfg": {"recovery": False, "runlog_every": 10, "wellformed": True}, "method": method, "ops": ops}
+
     # -- profile: live edits (and injections) at drawn ticks (C01, C14)
     def _gen_edit(self, rng: random.Random, tier: str) -> dict:
         feats = gen.pick_features(rng, never=["pause", "hold", "simulate"], p=0.45)
